@@ -34,8 +34,7 @@ class C01(Check):
             'encoded as a server would (1.0: end-of-message; 1.1: random chunkings down to single octets) and cut into transport reads '
             '<= BUF_SIZE (whole, single cut, cuts biased to delimiter / header / multi-byte positions, random, all-ones, BUF_SIZE); '
             'every single cut position for short streams (exhaustive over cut positions); plus byte strings for the UTF-8 decoder '
-            'Reads of up to 4096 + 16384 octets (what the TLS transport hands over per read), incl. a terminator at the front of a large read followed by thousands of octets of the next message. '
-            'and strings for str.strip. Non-trivial = a framing case with at least one message and at least two reads or two chunks; '
+            'and strings for str.strip. Reads of up to 4096 + 16384 octets (what the TLS transport hands over per read), incl. a terminator at the front of a large read followed by thousands of octets of the next message. Non-trivial = a framing case with at least one message and at least two reads or two chunks; '
             'distinct by (version, chunks, reads).')
     TRUST = ['CPython bytes.decode("UTF-8") and str.strip() as modelled in Model/Utf8.lean, Model/Basic.lean (compared on every run)',
              'the three transports\' _transport_read bodies are recv(BUF_SIZE) (checked textually each run)']
